@@ -31,7 +31,7 @@ def generate(rng, tier):
     k = 0
     combos = list(itertools.permutations(range(min(3, len(rl))), 2)) + list(itertools.permutations(range(min(3, len(rl))), 3))
     if tier != 'quick':
-        combos += list(itertools.permutations(range(min(5, len(rl))), 3))[:40]
+        combos += list(itertools.permutations(range(min(6, len(rl))), 3))[:120]
     for combo in combos:
         n = len(combo)
         lines = ['gb.new %d %s' % (i, sysgen.enc(rl[r])) for i, r in enumerate(combo)]
@@ -56,8 +56,8 @@ def generate(rng, tier):
     cases.append(('create_then_step', lines))
     # interrupt dispatch (running and halted) on an instance that is not the most recently created one
     nint = 0
-    for prog in ([0xfb, 0x18, 0xfe], [0xfb, 0x76, 0x18, 0xfd], [0xfb, 0x00, 0x76, 0x00, 0x18, 0xfa]):
-        for target in (0, 1):
+    for prog in ([0xfb, 0x18, 0xfe], [0xfb, 0x76, 0x18, 0xfd], [0xfb, 0x00, 0x76, 0x00, 0x18, 0xfa]) * (1 if tier == 'quick' else 6):
+        for target in (0, 1, 2)[:2 if tier == 'quick' else 3]:
             lines = ['gb.newloop %d 0 0 0' % i for i in range(3)]
             for i, b in enumerate(prog):
                 lines.append('gb.w %d %d %d' % (target, 0xc000 + i, b))
